@@ -1132,6 +1132,15 @@ def opaque(fn, s):
             c.axioms.append(z3.Implies(st > 0, v > 0)); c.axioms.append(z3.Implies(st < 0, v < 0)); c.axioms.append(z3.Implies(st == 0, v == 0))
             c.ranges[v.decl().name()] = (Fraction(-158, 100), Fraction(158, 100))
         c.opaque_args[v.decl().name()] = (fn, s)
+        if getattr(c, 'opaque_congruence', False):
+            # opt-in (harness): congruence and, for arccos, strict antitonicity against the earlier applications of the same
+            # function (syntactically different arguments that the path forces to be equal must give equal values)
+            prev = c.__dict__.setdefault('opaque_apps', {}).setdefault(fn, [])
+            for st0, v0 in prev[-12:]:
+                c.axioms.append(z3.Implies(st == st0, v == v0))
+                if fn == 'acos':
+                    c.axioms.append(z3.Implies(st < st0, v > v0)); c.axioms.append(z3.Implies(st > st0, v < v0))
+            prev.append((st, v))
     return SV(c.opaque[key])
 
 
